@@ -690,7 +690,14 @@ func sshSession(c *harness.Ctx) {
 	dir := c.CaseDir()
 	store := filepath.Join(dir, "store")
 	os.MkdirAll(store, 0755)
-	ls, _ := desync.NewLocalStore(store, desync.StoreOptions{})
+	// the store behind `desync pull` is compressed, or (through the config file of the serving side) uncompressed
+	uncompressed := rng.Intn(2) == 0
+	os.MkdirAll(filepath.Join(dir, ".config", "desync"), 0755)
+	dsu.WriteFile(filepath.Join(dir, ".config", "desync", "config.json"), []byte(fmt.Sprintf(`{"store-options": {%q: {"uncompressed": %v}}}`, store, uncompressed)))
+	oldHome := os.Getenv("HOME")
+	os.Setenv("HOME", dir)
+	defer os.Setenv("HOME", oldHome)
+	ls, _ := desync.NewLocalStore(store, desync.StoreOptions{Uncompressed: uncompressed})
 	var ids []desync.ChunkID
 	plain := map[desync.ChunkID][]byte{}
 	for k := 0; k < 4; k++ {
@@ -711,7 +718,7 @@ func sshSession(c *harness.Ctx) {
 	}
 	var absent desync.ChunkID
 	rng.Read(absent[:])
-	c.Info("ssh session: present, missing, present")
+	c.Info("ssh session: present, missing, present; served store uncompressed=%v", uncompressed)
 	c.LogInfo()
 	s, err := sshStore(store, 1)
 	if err != nil {
@@ -737,7 +744,7 @@ func sshSession(c *harness.Ctx) {
 		}
 	}
 	c.Count("ssh_sessions", 1)
-	c.NonTrivial("ssh-session")
+	c.NonTrivial("ssh-session|u%v", uncompressed)
 	c.Sample(map[string]interface{}{"leg": "ssh-session", "requests": len(seq)})
 }
 
